@@ -36,6 +36,7 @@ SPELLINGS = {
     "malformed#5": b"\xff\xfe\x00\x01 binary \x80 garbage",
     "nonSoap#4": b'<?xml version="1.0" encoding="ISO-8859-1"?><html><body>caf\xe9</body></html>',
     "normal#1": None, "fault11#1": None, "faultDetail#1": None,
+    "normal#2": None, "fault11#2": None, "fault12#2": None,
 }
 
 
@@ -48,6 +49,9 @@ def body_bytes(kind, style):
     if kind in ("normal#1", "fault11#1", "faultDetail#1"):
         # the same document in another encoding, with bytes that are not valid UTF-8
         return LATIN1 + body_bytes(kind.split("#")[0], style)
+    if kind in ("normal#2", "fault11#2", "fault12#2"):
+        # ... and in UTF-16 (byte order mark + declaration): no ASCII substring of the document survives in the bytes
+        return ('<?xml version="1.0" encoding="UTF-16"?>' + body_bytes(kind.split("#")[0], style).decode("utf-8")).encode("utf-16")
     if kind == "empty":
         return b""
     if kind == "malformed":
@@ -189,10 +193,48 @@ def run(ctx):
         ctx.compare("process_reply", meta, got, ans["impl"])
         if got != ans["table"]:
             ctx.fail("outcome differs from the documented classification table", meta, got, ans["table"])
+    descriptions(ctx)
     ctx.exhaustive = True
     ctx.sample(metas[0])
     ctx.sample(metas[len(metas) // 2])
     ctx.notes.append("%d cells enumerated (full product)" % cells)
+
+
+def descriptions(ctx):
+    """The status description reported for a non-200 reply is the one the delivery path was given - None when the
+    caller of RequestContext.process_reply gave none, the empty string when an injected reply says so ('injected
+    reply' only when it says nothing), the text of the TransportError - never one made up from the status."""
+    import suds.transport
+    w = make_wsdl("wrapped")
+    for status in (201, 404, 503):
+        for faults in (True, False):
+            paths = []
+            c2 = wsdlkit.client(w, faults=faults, nosend=True)
+            rc = c2.service.f("x")
+            paths.append(("reqctx/no-description", lambda rc=rc, status=status: rc.process_reply(b"", status), None))
+            paths.append(("reqctx/empty-description", lambda rc=rc, status=status: rc.process_reply(b"", status, ""), ""))
+            paths.append(("reqctx/description", lambda rc=rc, status=status: rc.process_reply(b"", status, "d e"), "d e"))
+            c = wsdlkit.client(w, faults=faults)
+            for label, inj, want in (("inject/no-description", {"reply": b"", "status": status}, "injected reply"),
+                                     ("inject/empty-description", {"reply": b"", "status": status, "description": ""}, ""),
+                                     ("inject/description", {"reply": b"", "status": status, "description": "x y"}, "x y")):
+                paths.append((label, lambda c=c, inj=inj: c.service.f("x", __inject=dict(inj)), want))
+            te = suds.transport.TransportError("reason text", status, io.BytesIO(b""))
+            c4 = wsdlkit.client(w, faults=faults, transport=wsdlkit.RecordingTransport(reply=te))
+            paths.append(("transport-error", lambda c4=c4: c4.service.f("x"), "reason text"))
+            for pname, fn, want in paths:
+                meta = {"stream": "descriptions", "status": status, "faults": faults, "path": pname}
+                ctx.case(common.canon(meta), True)
+                try:
+                    r = fn()
+                    got = ["returned", list(r) if isinstance(r, tuple) else repr(r)]
+                except Exception as e:
+                    a = e.args[0] if e.args else None
+                    got = ["raised", list(a) if isinstance(a, tuple) else repr(e)]
+                exp = ["raised" if faults else "returned", [status, want]]
+                if got != exp:
+                    ctx.fail("the status and description of a non-200 reply are not reported as they were delivered", meta,
+                             got, exp)
 
 
 def widen(ctx):
